@@ -209,6 +209,39 @@ pub struct Fx {
     pub client_config: Arc<rustls::ClientConfig>,
 }
 
+fn replay(path: &str, fx: &Fx) -> i32 {
+    let doc: serde_json::Value = serde_json::from_str(&std::fs::read_to_string(path).expect("replay file")).expect("json");
+    let rp = doc.get("replay").cloned().unwrap_or(doc);
+    let cases = grammar();
+    let Some(c) = rp.get("case_index").and_then(|x| x.as_u64()).and_then(|i| cases.get(i as usize)) else {
+        println!("MACHINERY-ERROR replay file has no case_index (TCP-transport artefacts: re-run ./check C17)");
+        return 2;
+    };
+    let entry = match rp.get("entry").and_then(|x| x.as_str()) {
+        Some("Pooled") => Entry::Pooled,
+        Some("Unpooled") => Entry::Unpooled,
+        Some("Connector") => Entry::Connector,
+        _ => Entry::Client,
+    };
+    let tp = if rp.get("transport").and_then(|x| x.as_str()) == Some("Tls") { Tp::Tls } else { Tp::Plain };
+    install_hook();
+    let (o1, p1) = run_case(c, entry, tp, fx);
+    let (o2, p2) = run_case(c, entry, tp, fx);
+    let _ = std::panic::take_hook();
+    if o1 != o2 || p1 != p2 {
+        println!("MACHINERY-ERROR replay diverged");
+        return 2;
+    }
+    println!("{} {} {:?} headers={} body={} through {entry:?} over {tp:?}: outcome {o1}, panics {p1:?}", c.method, c.uri, c.version, c.headers, c.body);
+    if p1.is_empty() && o1 != "no-result" && o1 != "livelock" {
+        println!("replay holds");
+        0
+    } else {
+        println!("VIOLATION property=C17 replay={path}");
+        1
+    }
+}
+
 pub fn run(args: &Args) -> i32 {
     let mut run = Run::new("C17", args.tier, "model_checking");
     let fx = match (tlsfix::server_config("examplecom", &[b"h2", b"http/1.1"]), tlsfix::client_config(&[b"h2", b"http/1.1"])) {
@@ -218,6 +251,9 @@ pub fn run(args: &Args) -> i32 {
             return 2;
         }
     };
+    if let Some(p) = &args.replay {
+        return replay(p, &fx);
+    }
     let cases = grammar();
     let entries = [Entry::Client, Entry::Pooled, Entry::Unpooled, Entry::Connector];
     let tps = [Tp::Plain, Tp::Tls];
@@ -253,10 +289,10 @@ pub fn run(args: &Args) -> i32 {
                 let vclass = match c.version { http::Version::HTTP_09 => "HTTP/0.9", http::Version::HTTP_3 => "HTTP/3", _ => "supported" };
                 run.violation(format!("panic at {loc} version={vclass} method={} uri={class}", if c.method == "CONNECT" { "CONNECT" } else { "other" }),
                     format!("panic ({}) sending {} {} {:?} through {e:?} over {t:?} transport; outcome {outcome}", panics.join(" | "), c.method, c.uri, c.version),
-                    json!({"engine":"schedmc-c17","case":{"version":format!("{:?}", c.version),"method":c.method,"uri":c.uri,"headers":c.headers,"body":c.body},"entry":format!("{e:?}"),"transport":format!("{t:?}")}));
+                    json!({"engine":"schedmc-c17","case_index":i,"case":{"version":format!("{:?}", c.version),"method":c.method,"uri":c.uri,"headers":c.headers,"body":c.body},"entry":format!("{e:?}"),"transport":format!("{t:?}")}));
             } else if outcome == "no-result" || outcome == "livelock" {
                 run.violation(format!("no-result entry={e:?} uri={}", c.uri_class), format!("the caller got neither a response nor an error ({outcome}) sending {} {} {:?} through {e:?} over {t:?}", c.method, c.uri, c.version),
-                    json!({"engine":"schedmc-c17","case":{"version":format!("{:?}", c.version),"method":c.method,"uri":c.uri,"headers":c.headers,"body":c.body},"entry":format!("{e:?}"),"transport":format!("{t:?}")}));
+                    json!({"engine":"schedmc-c17","case_index":i,"case":{"version":format!("{:?}", c.version),"method":c.method,"uri":c.uri,"headers":c.headers,"body":c.body},"entry":format!("{e:?}"),"transport":format!("{t:?}")}));
             }
         }
     }
